@@ -107,6 +107,64 @@ Theorem eta_minimal_linear_range : forall fd fb a o, eta fd fb a = OK o -> 0 < s
 Proof. exact eta_minimal_linear_range_lem. Qed.
 Print Assumptions eta_minimal_linear_range.
 
+(* ---- convert_to_arbitrary=True: the raster-sampled form returned by make_extended_trapezoid_area ----
+   [eta_arb] = same search, then points_to_waveform (np.interp at the raster centres) + make_arbitrary_grad +
+   the first/last assignment of make_extended_trapezoid. *)
+
+(* the sampled event starts at grad_start and ends at grad_end (fields first / last) *)
+Theorem eta_arb_endpoints : forall fd fb a o, eta_arb fd fb a = OK o ->
+  a_first (oa_grad o) = e_gs a /\ a_last (oa_grad o) = e_ge a.
+Proof. exact eta_arb_endpoints_lem. Qed.
+Print Assumptions eta_arb_endpoints.
+
+(* there is exactly one sample per raster step of the returned duration, sample i sits at the raster centre
+   (i + 1/2) * raster and equals the corner list (0, grad_start) (up R, amp) ((up+flat) R, amp) (D R, grad_end)
+   evaluated there ([arb_sample_spec]: the three linear pieces in closed form); the duration is that of the
+   solution found, which is the least feasible one by eta_smallest_feasible (same search) *)
+Theorem eta_arb_samples : forall fd fb a o, eta_arb fd fb a = OK o ->
+  let g := oa_grad o in let c := oa_cand o in let D := oa_dur o in
+  0 < rast a /\ find_solution a D = Some c /\
+  (0 < c_up c /\ 0 <= c_flat c /\ 0 < c_down c /\ c_up c + c_flat c + c_down c = D)%Z /\
+  length (a_wave g) = Z.to_nat D /\ length (a_tt g) = Z.to_nat D /\
+  (forall i, (i < Z.to_nat D)%nat -> nth i (a_wave g) 0 == arb_sample_spec a c (Z.of_nat i)) /\
+  (forall i, (i < Z.to_nat D)%nat -> nth i (a_tt g) 0 == (inject_Z (Z.of_nat i) + (1 # 2)) * rast a) /\
+  a_shape_dur g == inject_Z D * rast a /\
+  a_area g == qsum (map (fun w => w * rast a) (a_wave g)) /\
+  Qabs (a_area g - e_area a) < eta_area_tol.
+Proof. exact eta_arb_samples_lem. Qed.
+Print Assumptions eta_arb_samples.
+
+(* the area of the sampled form (sum of the samples times the raster, as make_arbitrary_grad computes it) EQUALS the
+   requested area: the midpoint rule is exact for a polyline whose corners lie on raster boundaries; hence the final
+   `abs(grad.area - area) < 1e-8` test can never fail on this path either *)
+Theorem eta_arb_area_exact : forall fd fb a o, eta_arb fd fb a = OK o ->
+  qsum (map (fun w => w * rast a) (a_wave (oa_grad o))) == e_area a /\ a_area (oa_grad o) == e_area a.
+Proof. exact eta_arb_area_exact_lem. Qed.
+Print Assumptions eta_arb_area_exact.
+
+(* ---- TERMINATION / TOTAL CORRECTNESS ----
+   in_domain a : raster > 0, 99 percent max_slew > 0, |grad_start|, |grad_end| <= 99 percent max_grad.
+   Every duration from [d_feasible a] (computable: max of 2, ceil(2|area| / (raster * 1e-8)) and
+   ceil(2 (2*0.99 max_grad + 1e-8) / (0.99 max_slew * raster)) + 2) upwards has a solution: the symmetric ramp pair
+   d/2 + (d - d/2) passes the filter. *)
+Theorem find_solution_eventually_feasible : forall a d, in_domain a -> (d_feasible a <= d)%Z ->
+  find_solution a d <> None.
+Proof. exact eventually_feasible'. Qed.
+Print Assumptions find_solution_eventually_feasible.
+
+(* hence the doubling loop stops, the binary search ends on a solution (neither OutOfFuel nor NoneSolution), the
+   construction passes every check of make_extended_trapezoid and the final area test: for in-domain inputs, systems
+   with sys_ok (the 1e-8 tolerances fit between 99 percent and 100 percent (+eps) of the limits, i.e. max_slew and
+   max_grad above ~1e-6) and fuel S kd / S kb with  d_feasible <= lin_max * 2^(S kd) <= 2^kb  a gradient IS returned.
+   Together with the theorems above: it has the requested end points, raster times, exact area, is within the limits
+   and no ramp pair is shorter. *)
+Theorem eta_total : forall a kd kb, in_domain a -> sys_ok a ->
+  (d_feasible a <= lin_max a * 2 ^ Z.of_nat (S kd))%Z ->
+  (lin_max a * 2 ^ Z.of_nat (S kd) <= 2 ^ Z.of_nat kb)%Z ->
+  exists o, eta (S kd) (S kb) a = OK o.
+Proof. exact eta_total_lem. Qed.
+Print Assumptions eta_total.
+
 (* REFUTED for the algorithm before repair 7df2246 ([eta_old]: binary-search result without rescan):
    on Opts(max_grad=10 mT/m, max_slew=200 T/m/s), grad_start = grad_end = -399118.9, area = -9.94 it returns
    18 raster steps although the ramp pair 8 + 8 exists (a dead space above the linear range: the doubling
@@ -131,6 +189,20 @@ Print Assumptions eta_old_minimal_refuted.
 Example C12_reproducer_repaired :
   match eta 40 200 old_args with OK o => o_dur o = 16%Z | Err _ => False end.
 Proof. vm_compute. reflexivity. Qed.
+
+(* the one-step-ramp input of the default system ((-700000, 845000, 19.165): 21 + 1 steps): the sampled form ends at
+   grad_end although its last two samples lie on different ramps (their extrapolation would give 863920) *)
+Definition onestep_args : etaArgs :=
+  {| e_sys := {| s_max_grad := 1703040; s_max_slew := 7237920000; s_raster := 1 # 100000 |};
+     e_gs := -700000; e_ge := 845000; e_area := 3833 # 200 |}.
+Example C12_arb_onestep_example :
+  match eta_arb 40 200 onestep_args with
+  | OK o => oa_dur o = 22%Z /\ c_down (oa_cand o) = 1%Z /\ a_last (oa_grad o) = 845000 /\
+            length (a_wave (oa_grad o)) = 22%nat /\
+            ~ (3 * nth 21 (a_wave (oa_grad o)) 0 - nth 20 (a_wave (oa_grad o)) 0) * (1 # 2) == 845000
+  | Err _ => False
+  end.
+Proof. vm_compute. repeat split; try reflexivity. intro H. discriminate H. Qed.
 
 (* the constants read from the source are the ones the property text names: 99 percent of both limits, area to
    1e-8, filter tolerances not above 1e-8 (a changed factor or tolerance in the source breaks this obligation) *)
@@ -179,3 +251,23 @@ Example C12_example_hypotheses :
              match find_solution (ex_args 0 0 100) d with None => (d <? 24)%Z | Some _ => (24 <=? d)%Z end)
           (seq 0 40) = true.
 Proof. split; [reflexivity|split; [apply Qle_bool_iff; vm_compute; reflexivity|vm_compute; reflexivity]]. Qed.
+
+(* non-vacuity of eta_total: its hypotheses hold for the triangle example with 51 doublings / 53 bisection steps
+   (d_feasible is about 2e15 raster steps because of the 1e-8 tolerance, but the fuel is its logarithm) *)
+Example C12_total_example :
+  in_domain (ex_args 0 0 100) /\ sys_ok (ex_args 0 0 100) /\
+  (d_feasible (ex_args 0 0 100) <= lin_max (ex_args 0 0 100) * 2 ^ Z.of_nat 51)%Z /\
+  (lin_max (ex_args 0 0 100) * 2 ^ Z.of_nat 51 <= 2 ^ Z.of_nat 52)%Z /\
+  exists o, eta 51 53 (ex_args 0 0 100) = OK o.
+Proof.
+  assert (D : in_domain (ex_args 0 0 100)).
+  { unfold in_domain. repeat split; try reflexivity; apply Qle_bool_iff; vm_compute; reflexivity. }
+  assert (S : sys_ok (ex_args 0 0 100)).
+  { unfold sys_ok. repeat split; apply Qle_bool_iff; vm_compute; reflexivity. }
+  assert (B1 : (d_feasible (ex_args 0 0 100) <= lin_max (ex_args 0 0 100) * 2 ^ Z.of_nat 51)%Z)
+    by (vm_compute; discriminate).
+  assert (B2 : (lin_max (ex_args 0 0 100) * 2 ^ Z.of_nat 51 <= 2 ^ Z.of_nat 52)%Z) by (vm_compute; discriminate).
+  repeat split; try assumption; try apply D; try apply S.
+  exact (eta_total_lem _ 50%nat 52%nat D S B1 B2).
+Qed.
+
